@@ -61,6 +61,38 @@ func parkedInWait(id uint64, buf []byte) bool {
 	return false
 }
 
+// fastLock: a mutex whose Unlock never hits the runtime's fatal error: an Unlock that finds the lock not held is
+// recorded instead. On code that keeps the Locker contract (Wait returns nil only holding the lock, an error only
+// without it) every Unlock of this phase finds the lock held by its caller, so `anomaly` stays false.
+type fastLock struct {
+	mu      sync.Mutex
+	held    atomic.Bool
+	anomaly atomic.Bool
+}
+
+func (l *fastLock) Lock() { l.mu.Lock(); l.held.Store(true) }
+func (l *fastLock) Unlock() {
+	if !l.held.CompareAndSwap(true, false) {
+		l.anomaly.Store(true)
+		return
+	}
+	l.mu.Unlock()
+}
+
+// lockStateOK releases the lock after a Wait that returned nil and reports an Unlock that found the lock not held
+// (by this caller or, after somebody else's lock was released by mistake, by a later one); false = a verdict was
+// recorded and the caller should stop. What an error return leaves behind is judged by the other phase.
+func lockStateOK(L *fastLock, me uint64, err error, desc string, fail func(kind, what string)) bool {
+	if err == nil {
+		L.Unlock()
+	}
+	if L.anomaly.Load() {
+		fail("wait-nil-without-lock-real-threads", fmt.Sprintf("%s: an Unlock after a Wait that returned nil found the caller's lock not held: some Wait returned nil without holding it", desc))
+		return false
+	}
+	return true
+}
+
 type bcStats struct{ rounds, wokenNil, entrantCalls, dumps int64 }
 
 func stressBroadcastParked(cfg CondStress, budget time.Duration) (*stressFail, bcStats) {
@@ -72,7 +104,10 @@ func stressBroadcastParked(cfg CondStress, budget time.Duration) (*stressFail, b
 	runtime.GOMAXPROCS(gmp)
 	defer runtime.GOMAXPROCS(old)
 
-	L := &sync.Mutex{} // (not the holder-recording lock of the other phase: that one spends microseconds inside Lock)
+	// not the holder-recording lock of the other phase (that one spends microseconds inside Lock and the window of
+	// this phase is then no longer hit), but not a bare sync.Mutex either: a Wait that comes back nil without the
+	// lock must end up as a verdict, not as the fatal error "unlock of unlocked mutex" that loses the whole run
+	L := &fastLock{}
 	c := xsync.NewContextCond(L)
 	var stop atomic.Bool
 	var firstFail atomic.Pointer[stressFail]
@@ -92,6 +127,7 @@ func stressBroadcastParked(cfg CondStress, budget time.Duration) (*stressFail, b
 		go func() {
 			defer wg.Done()
 			n := int64(0)
+			me := goid()
 			for !stop.Load() {
 				var err error
 				L.Lock()
@@ -99,8 +135,8 @@ func stressBroadcastParked(cfg CondStress, budget time.Duration) (*stressFail, b
 					fail("wait-panicked-real-threads", fmt.Sprintf("%s: Wait panicked: %v", desc, pv))
 					return
 				}
-				if err == nil {
-					L.Unlock()
+				if !lockStateOK(L, me, err, desc, fail) {
+					return
 				}
 				n++
 			}
@@ -115,7 +151,8 @@ func stressBroadcastParked(cfg CondStress, budget time.Duration) (*stressFail, b
 		done := make(chan error, 1)
 		var wid atomic.Uint64
 		go func() {
-			wid.Store(goid())
+			me := goid()
+			wid.Store(me)
 			L.Lock()
 			close(holding)
 			var err error
@@ -124,9 +161,7 @@ func stressBroadcastParked(cfg CondStress, budget time.Duration) (*stressFail, b
 				done <- fmt.Errorf("panicked")
 				return
 			}
-			if err == nil {
-				L.Unlock()
-			}
+			lockStateOK(L, me, err, desc, fail)
 			done <- err
 		}()
 		<-holding
